@@ -765,6 +765,17 @@ struct Explorer {
     bool interrupted = false;
     for (auto& e : r.events) if (e.kind == Event::kInterrupt) interrupted = true;
     if (interrupted) return;
+    // ninja gave up because it could not write a response file, with nothing wrong on the disk (no injected fault on this
+    // path): the file has to be writable wherever the manifest puts it -- next to an output whose directory ninja creates
+    {
+      bool failed_cmd = false;
+      for (auto& rc : r.cmds) if (rc.finished && rc.status != 0) failed_cmd = true;
+      if (r.exit_code != 0 && !failed_cmd && r.out.find("WriteFile(") != string::npos) {
+        Violation x; x.prop = "C16"; x.clause = "rspfile-not-written";
+        x.detail = "ninja stopped (exit " + to_string(r.exit_code) + ") because a response file could not be written: " + r.out.substr(0, 200);
+        out->push_back(x);
+      }
+    }
     map<string, const RunCmd*> last;
     for (auto& rc : r.cmds) last[rc.spec.id()] = &rc;
     for (auto& kv : last) {
